@@ -380,3 +380,32 @@ def normbody(pid):
         res.floor("Ok payloads and pushes of the normaliser", n, ctx.table("floors").get("normbody_sites", 0))
         return res
     return run
+
+
+def lookupexit(pid):
+    """R-LOOKUPEXIT: the one name lookup (Directory::stream_id_for_name_chain) says 'no such object' only when the
+    walk through the sibling tree ran off a NO_STREAM link.  Any other way to None - a depth cap, a step budget, an
+    early exit on some property of the entry - makes an existing object unaddressable (the tree is never
+    rebalanced, so it can be as deep as the storage has children)."""
+    def run(ctx):
+        res = RuleResult("R-LOOKUPEXIT(%s)" % pid, "every None returned by Directory::stream_id_for_name_chain is dominated by a comparison that found the walk variable equal to NO_STREAM")
+        f = ctx.fx.fns.get("internal::directory::Directory::<F>::stream_id_for_name_chain")
+        if f is None:
+            res.gone.append("stream_id_for_name_chain")
+            return res
+        g = guards(ctx, f)
+        n = 0
+        for bb, blk in enumerate(f.blocks):
+            if blk["cleanup"]:
+                continue
+            for i, st in enumerate(blk["stmts"]):
+                if st["s"] == "assign" and st["place"]["local"] == 0 and not st["place"]["proj"] and st["rv"]["r"] == "aggregate" and st["rv"].get("variant") == "None":
+                    n += 1
+                    atoms = g.atoms_at(("s", bb, i))
+                    if any(re.match(r"^\((Eq)\((var:\w+|.*\.(left_sibling|right_sibling|child)),const:(\w+::)*NO_STREAM\)\)$", a) for a in atoms):
+                        res.ok({"function": f.path, "line": st["span"]["line"], "none_only_when": [a for a in atoms if "NO_STREAM" in a][:1]}, nontrivial=True)
+                    else:
+                        res.fail(Finding(res.rule, "R-LOOKUPEXIT/%s/none-without-empty-link" % f.path, "the lookup can answer None although the link it stands on is not NO_STREAM (conditions on the path: %s): an object that exists and is listed cannot be found, opened or removed by name, and creating it again inserts a duplicate" % ("; ".join(a[:60] for a in atoms[:4]) or "none"), f, st["span"]))
+        res.floor("None returns of the lookup", n, ctx.table("floors").get("lookupexit_sites", 0))
+        return res
+    return run
